@@ -5,11 +5,15 @@ import (
 	"encoding/json"
 	"flag"
 	"fmt"
+	"go/ast"
+	"go/parser"
+	"go/token"
 	"io/ioutil"
 	"os"
 	"path/filepath"
 	"regexp"
 	"sort"
+	"strconv"
 	"strings"
 
 	"verifharness/drv"
@@ -179,8 +183,10 @@ func (e *evalCtx) c01(p *spec.Program, s *ProgSummary) {
 	m := e.model[p.ID]
 	if len(m) > 0 {
 		var diff []string
-		if m[0] != "ok" {
-			diff = append(diff, "model: plugin fails")
+		if implFails := s.Exit != 0 && s.NFiles == 0; m[0] != "ok" || implFails {
+			if (m[0] != "ok") != implFails {
+				diff = append(diff, fmt.Sprintf("model outcome %s, implementation exit status %d with %d files", m[0], s.Exit, s.NFiles))
+			}
 		} else {
 			if m[1] != s.FileName {
 				diff = append(diff, fmt.Sprintf("file name model %q impl %q", m[1], s.FileName))
@@ -215,7 +221,9 @@ func (e *evalCtx) mustFail(p *spec.Program, s *ProgSummary) {
 	}
 	e.verdict("C16", p.ID+"/program", ok, "must-fail", what)
 	if m := e.model[p.ID]; len(m) > 0 {
-		fmt.Fprintln(e.out, spec.L(spec.A("corr"), spec.Q(p.ID+"/program"), spec.B(m[0] == "fail"), spec.Q("model outcome "+m[0])).String())
+		implFails := s.Exit != 0 && s.NFiles == 0
+		fmt.Fprintln(e.out, spec.L(spec.A("corr"), spec.Q(p.ID+"/program"), spec.B((m[0] == "fail") == implFails),
+			spec.Q(fmt.Sprintf("model outcome %s, implementation exit status %d with %d files", m[0], s.Exit, s.NFiles))).String())
 	}
 }
 
@@ -595,6 +603,7 @@ func eval(args []string) {
 			continue
 		}
 		e.c01(p, s)
+		e.static(p, s)
 		// C14: repeated runs
 		same := true
 		for _, h := range s.SHARuns {
@@ -607,4 +616,206 @@ func eval(args []string) {
 	e.families()
 	e.out.Flush()
 	of.Close()
+}
+
+// ---- static oracles on the generated text (they also speak when the text does not compile)
+
+type keyNode struct {
+	name     string
+	children []*keyNode
+	has      bool // carries a nested attribute map
+}
+
+func isAttrMap(t ast.Expr) bool {
+	m, ok := t.(*ast.MapType)
+	if !ok {
+		return false
+	}
+	switch v := m.Value.(type) {
+	case *ast.SelectorExpr:
+		return v.Sel.Name == "Attribute"
+	case *ast.Ident:
+		return v.Name == "Attribute"
+	}
+	return false
+}
+
+// firstAttrMap finds the outermost attribute map literal below n.
+func firstAttrMap(n ast.Node) *ast.CompositeLit {
+	var found *ast.CompositeLit
+	ast.Inspect(n, func(x ast.Node) bool {
+		if found != nil {
+			return false
+		}
+		if c, ok := x.(*ast.CompositeLit); ok && c.Type != nil && isAttrMap(c.Type) {
+			found = c
+			return false
+		}
+		return true
+	})
+	return found
+}
+
+func keyTree(c *ast.CompositeLit) []*keyNode {
+	var out []*keyNode
+	for _, el := range c.Elts {
+		kv, ok := el.(*ast.KeyValueExpr)
+		if !ok {
+			continue
+		}
+		k, ok := kv.Key.(*ast.BasicLit)
+		if !ok {
+			continue
+		}
+		name, _ := strconv.Unquote(k.Value)
+		n := &keyNode{name: name}
+		if sub := firstAttrMap(kv.Value); sub != nil {
+			n.has = true
+			n.children = keyTree(sub)
+		}
+		out = append(out, n)
+	}
+	return out
+}
+
+func renderKeys(ns []*keyNode) string {
+	var parts []string
+	for _, n := range ns {
+		s := n.name
+		if n.has {
+			s += "{" + renderKeys(n.children) + "}"
+		}
+		parts = append(parts, s)
+	}
+	sort.Strings(parts)
+	return strings.Join(parts, ",")
+}
+
+func expectedKeys(m *spec.EMsg) []*keyNode {
+	var out []*keyNode
+	for _, f := range m.Fields {
+		n := &keyNode{name: f.Attr}
+		if f.Msg != nil && (f.Shape == "obj" || f.Shape == "objlist" || f.Shape == "objmap") {
+			n.has = true
+			n.children = expectedKeys(f.Msg)
+		}
+		out = append(out, n)
+	}
+	for _, in := range m.Injected {
+		out = append(out, &keyNode{name: in.Name})
+	}
+	return out
+}
+
+func customSuffixes(m *spec.EMsg, into map[string]bool) {
+	for _, f := range m.Fields {
+		if f.Shape == "custom" {
+			into[f.Suffix] = true
+		}
+		if f.Msg != nil {
+			customSuffixes(f.Msg, into)
+		}
+	}
+}
+
+var hookRefRe = regexp.MustCompile(`^(GenSchema|CopyTo|CopyFrom)(.+)$`)
+
+// static evaluates, on the generated text of one program: C02 the attribute names of every generated
+// schema, at every depth, are the documented ones; C17 the user hooks the text refers to are exactly
+// GenSchema/CopyTo/CopyFrom + the documented suffix of every custom-type field.
+func (e *evalCtx) static(p *spec.Program, s *ProgSummary) {
+	src, err := ioutil.ReadFile(filepath.Join(e.run, "gen", p.ID+"_terraform.go"))
+	if err != nil || len(src) == 0 {
+		return
+	}
+	fset := token.NewFileSet()
+	f, err := parser.ParseFile(fset, "gen.go", src, 0)
+	if err != nil {
+		return // C01 reports a text that does not parse
+	}
+	declared := map[string]*ast.FuncDecl{}
+	for _, d := range f.Decls {
+		if fd, ok := d.(*ast.FuncDecl); ok && fd.Recv == nil {
+			declared[fd.Name.Name] = fd
+		}
+	}
+	wantHooks := map[string]bool{}
+	anyCustom := false
+	for _, root := range e.expectedRoots(p) {
+		em := spec.Expect(p, root)
+		if em == nil {
+			continue
+		}
+		sfx := map[string]bool{}
+		customSuffixes(em, sfx)
+		for x := range sfx {
+			anyCustom = true
+			wantHooks["GenSchema"+x], wantHooks["CopyTo"+x], wantHooks["CopyFrom"+x] = true, true, true
+		}
+		fd := declared["GenSchema"+root]
+		if fd == nil || fd.Body == nil {
+			continue // C01 / C12 report missing declarations
+		}
+		top := firstAttrMap(fd.Body)
+		got := ""
+		if top != nil {
+			got = renderKeys(keyTree(top))
+		}
+		want := renderKeys(expectedKeys(em))
+		ok := got == want
+		what := ""
+		if !ok {
+			what = fmt.Sprintf("attribute names of GenSchema%s in the generated text: %s; documented: %s", root, clip(got, 600), clip(want, 600))
+		}
+		e.verdict("C02", p.ID+"/"+root+"/schema-keys-static", ok, "schema-keys-static", what)
+	}
+	// hooks referred to: called identifiers that the file does not declare itself
+	gotHooks := map[string]bool{}
+	ast.Inspect(f, func(x ast.Node) bool {
+		c, ok := x.(*ast.CallExpr)
+		if !ok {
+			return true
+		}
+		name := ""
+		switch fn := c.Fun.(type) {
+		case *ast.Ident:
+			name = fn.Name
+		case *ast.SelectorExpr:
+			name = fn.Sel.Name
+		}
+		if m := hookRefRe.FindStringSubmatch(name); m != nil && declared[name] == nil {
+			if _, isPkgCall := c.Fun.(*ast.SelectorExpr); !isPkgCall || wantHooks[name] {
+				gotHooks[name] = true
+			}
+		}
+		return true
+	})
+	if anyCustom || len(gotHooks) > 0 {
+		var missing, extra []string
+		for h := range wantHooks {
+			if !gotHooks[h] {
+				missing = append(missing, h)
+			}
+		}
+		for h := range gotHooks {
+			if !wantHooks[h] {
+				extra = append(extra, h)
+			}
+		}
+		sort.Strings(missing)
+		sort.Strings(extra)
+		ok := len(missing) == 0 && len(extra) == 0
+		what := ""
+		if !ok {
+			what = fmt.Sprintf("hooks the generated text calls but the documented suffix rule does not give: [%s]; documented hooks never called: [%s]", strings.Join(extra, " "), strings.Join(missing, " "))
+		}
+		e.verdict("C17", p.ID+"/program/hook-names-static", ok, "hook-names-static", what)
+	}
+}
+
+func clip(s string, n int) string {
+	if len(s) > n {
+		return s[:n] + "..."
+	}
+	return s
 }
